@@ -9,7 +9,7 @@ RULE = ("A (demand): 1-2 junctions x 1-2 demand entries/categories x all pairs o
         "population.  B (formulas): water_service_availability, todini_index, modified_resilience_index (both modes), "
         "tank_capacity (cylinder / volume curve), pump_power/energy/cost on synthetic 3-step tables filled from the alphabet "
         "{0,1,2.5,-1,...} by 12 fixed assignment patterns x 0-2 pumps x 1-2 reservoirs x efficiency {50,75,100} x price "
-        "{0,3.61e-8, per-pump}.  C (economic): annual_network_cost / annual_ghg_emissions with tank volumes, pipe and PRV "
+        "{0, 3.61e-8, per-pump, per-pump price 0.0 beside a non-zero global price}.  C (economic): annual_network_cost / annual_ghg_emissions with tank volumes, pipe and PRV "
         "diameters and pump powers placed at, just below and just above every midpoint between consecutive table entries, "
         "head pumps (1- and 3-point curves) and power pumps, efficiency {50,75,100}.  non-trivial: a case whose reference value "
         "depends on >= 2 distinct inputs (pattern with >= 2 distinct multipliers / a table with >= 2 distinct values / a "
@@ -143,7 +143,7 @@ def cell(a, t, c, k):
 
 def cases_B(tier):
     out = []
-    for a, npump, nres, eff, price in itertools.product(range(12), (0, 1, 2), (1, 2), (50.0, 75.0, 100.0), ("zero", "global", "pump")):
+    for a, npump, nres, eff, price in itertools.product(range(12), (0, 1, 2), (1, 2), (50.0, 75.0, 100.0), ("zero", "global", "pump", "pump0")):
         if tier == "quick" and a >= 6 and (eff != 75.0 or price != "global"):
             continue
         out.append({"part": "B", "a": a, "npump": npump, "nres": nres, "eff": eff, "price": price})
@@ -168,7 +168,7 @@ def run_B(s):
     wn = wntr.network.WaterNetworkModel()
     wn.options.time.report_timestep = 1800 if a % 2 else 3600
     wn.options.energy.global_efficiency = s["eff"]
-    wn.options.energy.global_price = {"zero": 0.0, "global": 3.61e-8, "pump": 1e-8}[s["price"]]
+    wn.options.energy.global_price = {"zero": 0.0, "global": 3.61e-8, "pump": 1e-8, "pump0": 2e-8}[s["price"]]
     juncs = ["J1", "J2", "J3"]
     elev = {"J1": 5.0, "J2": 0.0, "J3": 12.5}
     for j in juncs:
@@ -188,6 +188,8 @@ def run_B(s):
     if s["npump"] >= 1:
         wn.add_pump("pu1", "R1", "J2", "POWER", 5000.0)
         pumps.append(("pu1", "R1", "J2"))
+        if s["price"] == "pump0":      # a pump's own price of zero (free energy) beside a non-zero global price
+            wn.get_link("pu1").energy_price = 0.0
     if s["npump"] >= 2:
         wn.add_curve("hc", "HEAD", [(0.05, 30.0)])
         wn.add_pump("pu2", "J3", "J1", "HEAD", "hc")
@@ -277,9 +279,11 @@ def run_B(s):
         en = wntr.metrics.pump_energy(flow, head, wn)
         co = wntr.metrics.pump_cost(en, wn)
         for p, a_, b in pumps:
-            price = {"zero": 0.0, "global": 3.61e-8, "pump": 1e-8}[s["price"]]
+            price = {"zero": 0.0, "global": 3.61e-8, "pump": 1e-8, "pump0": 2e-8}[s["price"]]
             if p == "pu2" and s["price"] == "pump":
                 price = 5e-8
+            if p == "pu1" and s["price"] == "pump0":
+                price = 0.0
             for t in T:
                 r = RHO_G * (float(head.loc[t, b]) - float(head.loc[t, a_])) * float(flow.loc[t, p]) / (s["eff"] / 100.0)
                 cnt("pump_power")
